@@ -11,6 +11,7 @@ import (
 	"path/filepath"
 	"sort"
 	"strings"
+	"time"
 
 	"github.com/go-logr/logr"
 	"github.com/spf13/cobra"
@@ -150,6 +151,11 @@ func (e *c13Env) realFetch(st *c13Stores, upd *xt.T) error {
 // After every command the repository must satisfy the invariants; in particular the branch must
 // never point at a commit whose table is absent.
 func c13ShallowCLI(ctx *Ctx, env *c13Env, scn *xt.T) (class, msg string) {
+	if scn.Kids[0].N == 100 {
+		return c13TxCLI(ctx, env, scn)
+	}
+	t0 := time.Now()
+	defer func() { ctx.Info["ms_cli_shallow"] += int(time.Since(t0).Milliseconds()) }()
 	n, depth, mode, viaPull := int(scn.Kids[0].N), int(scn.Kids[1].N), int(scn.Kids[2].N), scn.Kids[3].N != 0
 	tables := scn.Kids[4].Kids
 	os.Setenv("XDG_CONFIG_HOME", filepath.Join(ctx.Tmp, "xdg"))
